@@ -1941,7 +1941,7 @@ func (g *Gen) setMayFireIn(fr *Frame, li *loopInfo, s *AnchorSet) bool {
 					return true
 				}
 				// an inlined closure or inlined function (which may in turn run a closure it is handed) may contain any trigger
-				con := g.P.contracts[funcKey(callee)]
+				con := g.contractOf(funcKey(callee))
 				inlined := callee.Parent() != nil && (con == nil || con.Inline || (len(con.Ensures) == 0 && len(con.Requires) == 0 && !con.HasModifies))
 				if inlined || (con != nil && con.Inline) {
 					return true
